@@ -1,6 +1,7 @@
 // C19: default parameter selection. One forked child per lambda; the child's termination status and, when it
 // returns, every field of the returned set are the observation. The oracle lives in checks/c19.py.
 #include "vh.hpp"
+#include "tfhe_garbage_collector.h"
 #include <sys/wait.h>
 #include <sstream>
 #include <new>
@@ -73,6 +74,11 @@ int main(int argc, char **argv) {
                 if (history == 6) { sigset_t m; sigemptyset(&m); sigaddset(&m, SIGABRT); sigprocmask(SIG_BLOCK, &m, nullptr); }
                 else if (history == 7) signal(SIGABRT, SIG_IGN);
                 else { struct sigaction sa; memset(&sa, 0, sizeof sa); sa.sa_handler = [](int) {}; sigaction(SIGABRT, &sa, nullptr); }
+            } else if (history == 9) {               // the library's parameter garbage collector released by the application between two requests
+                TFheGateBootstrappingParameterSet *o = new_default_gate_bootstrapping_parameters(lam <= 80 ? 128 : 80); (void) o;
+                TfheGarbageCollector::finalize();
+                TFheGateBootstrappingParameterSet *q = new_default_gate_bootstrapping_parameters(lam >= 1 && lam <= 128 ? lam : 90); (void) q;
+                TfheGarbageCollector::finalize();
             } else if (history == 4) {               // a key set of a custom parameter set generated, exported and re-imported first
                 PSet ps(4, 1024, 1, 2, 10, 2, 2, 2.44e-5, 1e-8, 0.012467);
                 TFheGateBootstrappingSecretKeySet *k = new_random_gate_bootstrapping_secret_keyset(ps.gb);
